@@ -21,18 +21,23 @@ size_t in_slen;
 void harness(void)
 {
   vf_oracle_init();
-  in_kind = nondet_int();
-  __CPROVER_assume(in_kind >= 0 && in_kind <= 4);
+  in_kind = KIND;        /* which prior block: fixed per query (one concrete heap object per query) */
   int in_sk = nondet_int();       /* which recorded size: classes with concrete values */
   __CPROVER_assume(in_sk >= 0 && in_sk <= 5);
   /* pre-state invariant I(*data,*size): *data is NULL, or a live malloc block of A
      bytes and (*size <= 0 or *size <= A) */
   void *data; size_t A;
-  if (in_kind == 0) { data = 0; A = 0; }
-  else if (in_kind == 1) { data = malloc(1); A = 1; }
-  else if (in_kind == 2) { data = malloc(SZ - 1); A = SZ - 1; }
-  else if (in_kind == 3) { data = malloc(SZ); A = SZ; }
-  else { data = malloc(SZ + 8); A = SZ + 8; }
+#if KIND == 0
+  data = 0; A = 0;
+#elif KIND == 1
+  data = malloc(1); A = 1;
+#elif KIND == 2
+  data = malloc(SZ - 1); A = SZ - 1;
+#elif KIND == 3
+  data = malloc(SZ); A = SZ;
+#else
+  data = malloc(SZ + 8); A = SZ + 8;
+#endif
   if (in_kind != 0) __CPROVER_assume(data != 0);
   /* recorded *size: negative, zero, 1, A/2, A-1 or A (never more than the block holds) */
   in_size = in_sk == 0 ? (-2147483647 - 1) : in_sk == 1 ? -1 : in_sk == 2 ? 0 : in_sk == 3 ? 1
@@ -68,19 +73,25 @@ void harness(void)
       VF_ASSERT(data == data0 && size == size0, "C14: on allocation failure *data and *size are unchanged");
       VF_ASSERT(e == 0 || e == ENOMEM, "C15: allocation failure leaves errno as realloc set it");
       VF_ASSERT(vf_stub_calls == 0, "C15: no hashing without a data object");
+#if KIND <= 2
       VF_WITNESS("realloc failed");
+#endif
     } else {
       VF_ASSERT(data == vf_realloc_new && size == SZ, "C14: *data is the new block and *size its size");
       VF_ASSERT(__CPROVER_w_ok(data, sizeof(struct crypt_data)), "C14: the new block is live and large enough");
       struct crypt_data *d = data;
       for (size_t i = 0; i < sizeof d->setting; i++) VF_ASSERT(d->setting[i] == 0, "C14: a grown block is zero-initialised (setting)");
       for (size_t i = 0; i < sizeof d->input; i++) VF_ASSERT(d->input[i] == 0, "C14: a grown block is zero-initialised (input)");
+#if KIND <= 2
       VF_WITNESS("grown");
+#endif
     }
   } else {
     VF_ASSERT(vf_realloc_calls == 0, "C14: a sufficient block is kept");
     VF_ASSERT(data == data0 && size == size0, "C14: *data and *size unchanged for a sufficient block");
+#if KIND >= 3
     VF_WITNESS("kept");
+#endif
   }
   if (data) {
     VF_ASSERT(size <= 0 || __CPROVER_r_ok(data, (size_t)(size > 0 ? size : 0)), "C14: post-state satisfies the invariant: *size bytes of *data are live");
